@@ -62,8 +62,10 @@ var fns = []sfn{
 	{"Bullet", style.Bullet, fixed(oracle.Attr{})},
 }
 
-var leavesX = []string{"", "a", "a b", "a\nb", "\n"}
-var leavesY = []string{"", "c", "c d", "c\nd", "\n"}
+// the last leaf of each list starts a line with a combining mark (a tokenizer that glues
+// marks to the preceding character must not glue them to a line break)
+var leavesX = []string{"", "a", "a b", "a\nb", "\n", "a\n\u0301b"}
+var leavesY = []string{"", "c", "c d", "c\nd", "\n", "c\u0308\n\u0308d"}
 
 type lop struct {
 	Name string
@@ -296,7 +298,7 @@ func historyIndependence(r *ev.Report) {
 
 func main() {
 	r := ev.New("C14", "exploration",
-		"every style expression f(g(h(leaf))) and f(g(leaf)+h(leaf')) over 17 style functions (incl. identity) and 5 leaves each, followed by every sequence of layout "+
+		"every style expression f(g(h(leaf))) and f(g(leaf)+h(leaf')) over 17 style functions (incl. identity) and 6 leaves each (empty, letter, words, lines, bare line break, line starting with a combining mark), followed by every sequence of layout "+
 			"operations (12 ops: Wrap/DumbWrap/Pad at 1,3,80, two Indents, Snip) of length <= 1 (quick) / <= 2 (thorough); the whole enumeration is repeated (with one layout step less) under a second palette whose colour triples end in 1, 3, 4 and 9; call-history independence: every ordered pair of calls over 28 operations x 6 arguments compared with the second call in isolation; SGR machine checks per-letter attributes, "+
 			"neutrality at every line end and end of string, and that layout keeps attributes; distinct_nontrivial counts distinct expressions with at least one letter and one non-identity style")
 	debug.SetGCPercent(800)
